@@ -26,7 +26,7 @@ def plan(tier, seed):
   specs += [{'shard': 'ec-%d' % i, 'n': 14 if q else 160, 'weight': 5}
             for i in range(6)]
   specs += [{'shard': 'ecdsa-%d' % i, 'n': 5 if q else 60, 'weight': 6}
-            for i in range(5)]
+            for i in range(6)]
   return specs
 
 
@@ -118,6 +118,22 @@ def run_ecdsa(ctx, spec):
     size = [0, 1, 2, 3][b] if b < 4 else rng.choice([1, 2, 3, 5, 9, 16])
     sg, descs = workloads.ecdsa_hostile_batch(rng, size) if size else ([], [])
     sg, descs = (sg[:size], descs[:size]) if size <= 3 else (sg, descs)
+    if b == 4:
+      # one issuer with exactly 24 / 48 distinct signatures (the sizes of the
+      # lattice windows), with and without duplicates, next to 23 and 25
+      from vp import sigs as vsigs
+      c = rng.choice(['CURVE_SECP256R1', 'CURVE_SECP256K1', 'CURVE_SECP224R1'])
+      n = gen.model_curve(c).n
+      cnt = rng.choice([24, 24, 48, 23, 25])
+      d, pub = vsigs.issuer(rng, c)
+      sg = vsigs.sign_many(rng, c, d, pub, vsigs.nonces_uniform(rng, n, cnt))
+      descs = ['%s:issuer-with-%d' % (c, cnt)] * len(sg)
+      for _ in range(rng.choice([0, 3])):
+        dup = type(sg[0])()
+        dup.CopyFrom(rng.choice(sg))
+        sg.append(dup)
+        descs.append('%s:dup' % c)
+      ctx.count('window_sized_issuers')
     _call(ctx, paranoid.CheckAllECDSASigs, 'CheckAllECDSASigs', _copies(sg),
           descs, 'ecdsa')
     for name, chk in checks.items():
@@ -137,6 +153,7 @@ def run(ctx, spec):
 
 def finalize(agg, tier):
   c = agg['counters']
-  need = ['calls:rsa', 'calls:ec', 'calls:ecdsa', 'size:0', 'size:1', 'size:2',
+  need = ['calls:rsa', 'calls:ec', 'calls:ecdsa', 'window_sized_issuers',
+          'size:0', 'size:1', 'size:2',
           'size:3', 'size:4+']
   return [], ['reach counter %s is zero' % k for k in need if not c.get(k)]
